@@ -129,8 +129,10 @@ func scenarioHostile() int {
 	sent, sentBytes, closedOK, closedChecked := 0, int64(0), 0, 0
 	slowBatches := 0
 	sinceRestart := 0
+	answered := 0
 	for sent < total && run.Violations() <= 4 {
 		var batch []hostileInput
+		mark := w.Net.Count()
 		m0, _ := w.Proxy.MemStats()
 		var bbytes int64
 		for k := 0; k < B; k++ {
@@ -152,6 +154,20 @@ func scenarioHostile() int {
 			hostileSend(w, in)
 			bbytes += int64(len(in.raw))
 			run.Eval(strings.SplitN(in.mut, "=", 2)[0] + "|" + in.proto)
+		}
+		// whatever of the batch got through to a backend is answered by it: the answers travel back
+		// towards clients of which most have hung up long ago (every TCP input came over a
+		// connection of its own that was closed right after the write)
+		time.Sleep(20 * time.Millisecond)
+		nans := 0
+		for _, o := range w.Net.Since(mark) {
+			if nans >= 60 {
+				break
+			}
+			if o.Msg != nil && o.Msg.IsRequest() && hostileAnswer(w, o, []int{200, 180, 404, 100}[nans%4]) {
+				nans++
+				answered++
+			}
 		}
 		// connections that deliver only the beginning of a message and then stay silent
 		// (still open while the probe set runs): they must not hold up anybody else
@@ -272,6 +288,7 @@ func scenarioHostile() int {
 	run.Observe("inputs_sent", sent)
 	run.Observe("bytes_sent", sentBytes)
 	run.Observe("probe_sets_passed", sent/B)
+	run.Observe("hostile_requests_that_reached_a_backend_and_were_answered", answered)
 	run.Observe("probe_sets_that_needed_a_retry_slow_not_stalled", slowBatches)
 	run.Observe("max_totalalloc_per_received_byte", maxRatio)
 	run.Observe("max_heapsys_mib", maxHeapSys>>20)
@@ -282,6 +299,39 @@ func scenarioHostile() int {
 	run.Observe("race_reports_during_run", len(wire.RaceReports(w.Proxy.Dir, "sipproxy")))
 	run.Assume("peers that stop reading a TCP connection and tar-pit destinations are outside the stated domain (bytes delivered to a listener)")
 	return run.Finish(int64(total) / 2)
+}
+
+// hostileAnswer lets the backend that received o answer it (no waiting: the client may be gone).
+func hostileAnswer(w *wire.World, o *wire.Obs, status int) bool {
+	for _, sv := range w.Svcs {
+		if !sv.BackendEndpointNames()[o.Ep] {
+			continue
+		}
+		resp := &sip.Msg{Start: fmt.Sprintf("SIP/2.0 %d Answer", status)}
+		for _, h := range o.Msg.Headers {
+			switch sip.Canon(h.Name) {
+			case "via", "from", "call-id", "cseq", "to":
+				resp.Headers = append(resp.Headers, h)
+			}
+		}
+		resp.Headers = append(resp.Headers, sip.Header{Name: "Content-Length", Value: "0"})
+		if o.Proto == "udp" {
+			for _, e := range sv.BeUDP {
+				if e.Name == o.Ep {
+					e.Send(fmt.Sprintf("%s:%d", sv.IP, sv.UDP), resp.Bytes(), "")
+					return true
+				}
+			}
+		} else {
+			for _, l := range sv.BeTCP {
+				if c := l.ConnByID(o.Conn); c != nil {
+					c.Send(resp.Bytes(), "")
+					return true
+				}
+			}
+		}
+	}
+	return false
 }
 
 func hostileMutators(b []hostileInput) map[string]int {
